@@ -8,6 +8,7 @@ CHECKS={
 "C01":("exploration","Seeded search over interleavings of senders, timers, exit signals, Kill and meta Start-return with the wake-up/sleep transitions of actors, supervisors, pools and meta-processes; every callback carries an overlap counter and a non-atomic update with a scheduling point inside."),
 "C02":("exploration","Seeded search over interleavings of concurrent senders, the receiver's sleep/wake transitions, bounded mailboxes, fallback routing and delayed-send cancel races on the real node runtime; conservation oracle (accepted = handled exactly once, refused = never handled) plus the quiescent witness 'non-empty mailbox in state sleep'."),
 "C03":("exploration","Numbered streams from several senders with mixed priorities/addressing modes plus exit signals, inspects, downs and log messages against a receiver parked inside its handlers; FIFO per (sender, class) and the priority-class rule are checked on the step-stamped history."),
+"C04":("exploration","Link/unlink/monitor/demonitor sequences by several requesters on pid, name, alias and event of targets that concurrently unregister or terminate; reference relation model from returned results and step-stamped intervals; exactly-one notification with an allowed reason, none without a relation, request after disappearance must fail, overlapping request may fail or be notified."),
 "C05":("fault_enumeration","Termination causes (handler error/normal/panic, Kill, exit from parent / non-parent, meta Start return, node stop graceful/forced) placed at drawn points of concurrent drivers for four target kinds; the scheduler explores the target state at which each cause lands; oracle: terminate once, last callback, reason in the set the issued causes allow."),
 "C07":("exploration","Interleaved calls with simulated-clock timeouts, late/duplicate/foreign/flooded replies, callee deaths and reference-counter cycling; oracle on (request id, reply serial) pairs: own reply or error, request seen at most once, reply consumed at most once."),
 }
